@@ -485,6 +485,7 @@ func runC11(cfg Config) {
 		}
 		os.RemoveAll(dir)
 	}
+	c11CLI(cfg, rep, rng)
 	rep.Write(cfg.Out)
 }
 
